@@ -1,5 +1,5 @@
 """Precedence-climbing parser over the engine token stream (the `etok` output of the extracted Coq
-tokenizer), per dialect.  It is the executable counterpart of coq/Spec/Pratt.v + Spec/Prec.v used as
+tokenizer), per dialect.  It is the executable counterpart of coq/Spec/PrattT.v + Spec/Prec.v used as
 an oracle on the implementation's own output: a rendering and a fully parenthesised rendering of the
 same tree must parse to the same tree.  Strict on purpose (see Pratt.v)."""
 
